@@ -92,12 +92,18 @@ Definition entries_C11 : list entry := [
        let? fn := d_str fn in let? f := d_xv f in let? o := d_xv o in let? t := d_xv t in let? alpha := d_xv alpha in let? a := d_xv a in
        let '(over, under) := murphy_kernel fn f o t alpha (Some a) in
        let '(tot, p2, p3) := gen_murphy_merge over under f in
-       let spec := match f, o, t, alpha, a with
-                   | XFin f, XFin o, XFin t, XFin al, XFin a =>
-                       if String.eqb fn "quantile" then [XFin (es_quantile al f o t); XFin (es_quantile_under al f o t); XFin (es_quantile_over al f o t)]
-                       else if String.eqb fn "huber" then [XFin (es_huber al a f o t); XFin (es_huber_under al a f o t); XFin (es_huber_over al a f o t)]
-                       else [XFin (es_expectile al f o t); XFin (es_expectile_under al f o t); XFin (es_expectile_over al f o t)]
-                   | _, _, _, _, _ => [] end in
+       (* specification values (total, under, over) on the extended reals: whenever no argument is NaN and the penalty size
+          is defined (model/C11_spec.v); on rational arguments these are the es_* values (C11_extended_agrees_on_rationals) *)
+       let spec := match alpha, a with
+                   | XFin al, XFin a =>
+                       if xisnan f || xisnan o || xisnan t then []
+                       else if String.eqb fn "quantile" then
+                         [xadd (esx_quantile_over al f o t) (esx_quantile_under al f o t); esx_quantile_under al f o t; esx_quantile_over al f o t]
+                       else if negb (size_defined o t) then []
+                       else if String.eqb fn "huber" then
+                         [xadd (esx_huber_over al a f o t) (esx_huber_under al a f o t); esx_huber_under al a f o t; esx_huber_over al a f o t]
+                       else [xadd (esx_expectile_over al f o t) (esx_expectile_under al f o t); esx_expectile_under al f o t; esx_expectile_over al f o t]
+                   | _, _ => [] end in
        Some (RL [e_xvs [over; under]; e_xvs [tot; p2; p3]; e_xvs spec])
      | _ => None end));
   ("c11_murphy_score", fun r => orun (
